@@ -341,6 +341,34 @@ func (p *Protocol) SendMessageAndWait(msg Message) error {
 	return p.waitForMessageDelivery(deliveryChan)
 }
 
+// SendMessageAndWaitTimeout queues a message and waits, for at most the given
+// duration, until its final muxer segment has been written to the underlying
+// connection. It reports whether the message was written in that time. An
+// error is returned only when the message could not be queued. Unlike
+// WaitSendQueueDrained, which returns as soon as the send loop has taken the
+// message off the queue, a true result means the bytes have left the muxer.
+func (p *Protocol) SendMessageAndWaitTimeout(
+	msg Message,
+	timeout time.Duration,
+) (bool, error) {
+	deliveryChan := make(chan error, 1)
+	if err := p.enqueueMessage(msg, deliveryChan); err != nil {
+		return false, err
+	}
+	timer := time.NewTimer(timeout)
+	defer timer.Stop()
+	select {
+	case err := <-deliveryChan:
+		return err == nil, nil
+	case <-timer.C:
+		return false, nil
+	case <-p.stopChan:
+	case <-p.doneChan:
+	case <-p.muxerDoneChan:
+	}
+	return deliveryResultOrShutdown(deliveryChan) == nil, nil
+}
+
 func (p *Protocol) waitForMessageDelivery(deliveryChan <-chan error) error {
 	select {
 	case err := <-deliveryChan:
